@@ -4,7 +4,8 @@ from props import idxcommon as ic
 
 ID = "C19"
 THEOREMS = [("FlatModel.Props.C19", t) for t in (
-    "FC.C19.cost", "FC.C19.used_bytes", "FC.C19.dense_state", "FC.C19.dense_free")]
+    "FC.C19.cost", "FC.C19.used_bytes", "FC.C19.dense_state", "FC.C19.dense_free")] + [
+    ("FlatModel.Props.C19Stack", t) for t in ("FC.C19.flatstack_dense_free", "FC.C19.consec_stack_free", "FC.C19.columns_stack_free")]
 PROFILES = {"quick": ["checked", "wrapping"], "thorough": ["checked", "wrapping"], "search": ["checked", "wrapping"]}
 RULE = ("the C05 enumeration with the heap bytes in use as the observation, expected cost computed from the documented rule "
         "(stride prefix free, 4 bytes per entry below 2^32, 8 bytes from the first larger value on); long dense/strided/"
@@ -13,11 +14,49 @@ EXHAUSTIVE = {"quick": True, "thorough": True}
 ASSUMPTIONS = ["usize is 64 bits"]
 
 
+def dense_stacks(rng, n):
+    """FlatStack<_, IndexOptimized> over consecutive-pair and columns regions of arbitrary contents: the stack's own
+    index storage (the last two pairs heap_size reports) must stay empty"""
+    from props.regcommon import RB, entries
+    from vlib import parse_pairs
+    out = []
+    cats = entries(lambda c: c["term"].kind in ("consec", "columns") and not c["caps"]["coded"])
+    for i in range(n):
+        cat = cats[i % len(cats)]
+        b = RB(ID, cat, rng.fork(), "opt")
+        b.new("a")
+        forms_all = [f for f in cat["forms"] if f not in cat["array_forms"] and f != "item"]
+        for _ in range(3 + rng.below(40)):
+            r = rng.below(8)
+            if r == 0:
+                vs = [b.value() for _ in range(rng.below(5))]
+                b.raw("x a sextend %s [%s]" % (rng.pick(forms_all), ",".join(b.r(v) for v in vs)), ("eq", "ok"), shape="ext%d" % len(vs))
+                b.h["a"].vals.extend(vs)
+            elif r == 1:
+                b.raw("x a sreserve %d" % rng.below(40), ("eq", "ok"), shape="reserve")
+            else:
+                v = b.value()
+                b.push("a", v, b.form_for(v))
+            if rng.below(8) == 0:
+                b.clear("a")
+
+        def free(got, _):
+            p = parse_pairs(got)
+            if p is None or len(p) < 2:
+                return "pairs"
+            return None if p[-1] == (0, 0) and p[-2] == (0, 0) else "the stack spends heap on its own indices: %s %s" % (p[-2], p[-1])
+        b.raw("heap a", ("pred", free, "dense indices cost no heap"), cmp="heap", sig="dense-stack-indices-cost-heap@" + b.entry, shape="heap")
+        b.s.nontrivial = len(b.h["a"].vals) >= 3
+        out.append(b.s)
+    return out
+
+
 def generate(seed, tier):
     rng = Rng(seed + 19)
     n = {"quick": 4, "thorough": 5, "search": 5}[tier]
     out = ic.exhaustive(ID, n, True, with_clear=True)
     out += ic.random_seqs(ID, rng, {"quick": 300, "thorough": 3000, "search": 1500}[tier], {"quick": 40, "thorough": 400, "search": 60}[tier], True)
+    out += dense_stacks(rng, {"quick": 60, "thorough": 600, "search": 200}[tier])
     return out
 
 
